@@ -1,36 +1,62 @@
 //go:build verif
 
-package bed
+package newick
 
 // Machine-checked contracts for /verif/govc (contract-based deductive
 // verification). Comments only; this file compiles to nothing and is only
 // read with the build tag "verif".
 
+// The byte stream behind r.r (assumed contract of bufio.Reader, see
+// /verif/govc/extern.go): content in[0..end), position pos; at pos == end
+// ReadByte returns io.EOF, or - if fault - a non-EOF error err (once or forever).
+
+//@ func reader.nextToken
+//@   props C07 C11 C18
+//@   let S := r.r
+//@   let p0 := old(r.r.pos)
+//@   let active0 := S.fault && (!old(r.r.fired) || S.forever)
+//@   ensures result.1 == nil || result.1 == 1 || result.1 == S.err || localErr(result.1)
+//@   ensures result.1 == 1 ==> S.pos == S.end && !active0
+//@   ensures result.1 == nil ==> S.pos > p0
+//@   ensures S.pos >= p0 && S.pos <= S.end
+//@   ensures S.fired == (old(r.r.fired) || result.1 == S.err)
+//@   ensures p0 == S.end && active0 ==> result.1 == S.err
+//@   loop 1
+//@     invariant r != nil
+//@     invariant p0 <= r.r.pos && r.r.pos <= S.end
+//@     invariant r.r.fired == old(r.r.fired)
+//@     invariant len(r.b.out) > 0 ==> r.r.pos > p0
+//@     invariant quote ==> len(r.b.out) > 0
+//@     decreases S.end - r.r.pos
+
 //@ func reader.read
 //@   props C07 C11 C18
+//@   thin
 //@   let S := r.r
 //@   let p0 := old(r.r.pos)
 //@   let active0 := S.fault && (!old(r.r.fired) || S.forever)
 //@   ensures result.1 == nil <==> result.0 != nil
 //@   ensures result.1 == 1 ==> S.pos == S.end && !active0
-//@   ensures S.pos >= p0 && S.pos <= S.end
 //@   ensures result.1 == nil ==> S.pos > p0
+//@   ensures S.pos >= p0 && S.pos <= S.end
 //@   ensures p0 == S.end && active0 ==> result.1 == S.err
 //@   ensures S.fired == (old(r.r.fired) || result.1 == S.err)
+//@   modifies-heap github.com/fluhus/biostuff/formats/newick.Node.Name github.com/fluhus/biostuff/formats/newick.Node.Distance github.com/fluhus/biostuff/formats/newick.Node.Children
 //@   loop 1
-//@     invariant r != nil
-//@     invariant p0 <= r.r.pos && r.r.pos <= S.end
-//@     invariant r.r.fired == old(r.r.fired)
+//@     invariant r != nil && len(stack) >= 1 && 0 <= state && state <= 4
+//@     invariant forall k int :: 0 <= k && k < len(stack) ==> stack[k] != nil
+//@     invariant p0 <= r.r.pos && r.r.pos <= S.end && r.r.fired == old(r.r.fired)
+//@     invariant readAny ==> r.r.pos > p0
 //@     decreases S.end - r.r.pos
 
 //@ func Reader
 //@   props C06 C07 C18
 //@   yields Y
 //@   witness rd
-//@   ensures !stopped && rd.r.fault ==> len(Y) > 0 && Y[len(Y)-1].1 != nil
 //@   ensures forall t int :: 0 <= t && t < len(Y) && Y[t].1 != nil ==> t == len(Y)-1
 //@   ensures forall t int :: 0 <= t && t < len(Y) ==> (Y[t].1 != nil <==> Y[t].0 == nil)
 //@   ensures forall t int :: 0 <= t && t < len(Y) ==> Y[t].1 != 1
+//@   ensures !stopped && rd.r.fault ==> len(Y) > 0 && Y[len(Y)-1].1 != nil
 //@   loop 1
 //@     invariant rd != nil
 //@     invariant forall t int :: 0 <= t && t < len(Y) ==> Y[t].1 == nil && Y[t].0 != nil
@@ -47,13 +73,3 @@ package bed
 //@   ensures forall t int :: 0 <= t && t < len(Y) && Y[t].1 != nil ==> t == len(Y)-1
 //@   loop 1
 //@     invariant !openFails(file) && len(Y) == K && forall t int :: 0 <= t && t < K ==> same(Y[t], ZR[t])
-
-//@ func parseLine
-//@   props C04 C11
-//@   thin
-//@   ensures result.1 == nil <==> result.0 != nil
-//@   ensures result.1 == nil || localErr(result.1)
-//@   loop 2
-//@     invariant bed != nil && len(bed.BlockSizes) == len(sizes)
-//@   loop 3
-//@     invariant bed != nil && len(bed.BlockStarts) == len(starts)
